@@ -330,7 +330,9 @@ func lemmaTickMonotone(intervalStart uint64, intervalsPerDay uint32, t1, t2 uint
 //@ props C28 C01 C05
 //@ option noimplicit
 //@ loop 0 invariant #hdr: 0 <= i && i <= WTCount && len(tgSerialized) >= 16 && sle64(tgSerialized, 0) == tgID
+//@ loop 0 invariant #cnt: sle64(tgSerialized, 8) == WTCount
 //@ ensures #id: len(tgSerialized2) >= 16 && sle64(tgSerialized2, 0) == tgID
+//@ ensures #count: sle64(tgSerialized2, 8) == len(commands)
 
 //@ func (*WALFileType).FlushCommandsToWAL
 //@ props C01 C04 C05 C35
